@@ -50,6 +50,7 @@ class Contract:
         self.kwonly = kw.pop("kwonly", {})
         self.provider_requires = dict(kw.pop("provider_requires", {}))  # provider name -> [exprs over idx, args, locals]
         self.provider_hints = dict(kw.pop("provider_hints", {}))        # provider name -> [ghost statements]
+        self.assume_call_pre = list(kw.pop("assume_call_pre", []))    # callees whose preconditions are ASSUMED here (reported)
         self.pure_calls = list(kw.pop("pure_calls", []))   # method names assumed pure & provider-free (lenient only)
         self.call_requires = dict(kw.pop("call_requires", {}))  # callee qual -> [exprs] extra call-site obligations
         self.call_models = dict(kw.pop("call_models", {}))  # "self.f" -> spec expression for the value of self.f(...)
